@@ -1,7 +1,8 @@
 """Property -> rule functions."""
-from .rules import safety, codecs
+from .rules import safety, codecs, determinism
 
 PROPS = {
     "C15": codecs.ALL,
+    "C16": determinism.ALL,
     "C20": safety.ALL,
 }
